@@ -109,9 +109,16 @@ def model_check(cfg_name, timeout=600, module="MC_Eco", invariants=None, propert
             if properties:
                 cfg += "PROPERTIES\n" + "".join("  %s\n" % x for x in properties)
         open(os.path.join(d, module + ".cfg"), "w").write(cfg)
-        rc, out, wall = run_tlc(d, module + ".tla", extra or [], timeout, workers=NCPU)
+        cex = os.path.join(d, "cex.json")
+        rc, out, wall = run_tlc(d, module + ".tla", (extra or []) + ["-dumpTrace", "json", cex], timeout, workers=NCPU)
         res = {"cfg": cfg_name, "rc": rc, "wall_s": round(wall, 1), "ok": False, "states": 0, "transitions": 0,
-               "complete": False}
+               "complete": False, "counterexample": None}
+        if os.path.exists(cex):
+            try:
+                states = [x[1] for x in json.load(open(cex))["counterexample"]["state"]]
+                res["counterexample"] = states
+            except Exception as e:  # noqa
+                res["counterexample_error"] = str(e)
         m = re.search(r"(\d+) states generated, (\d+) distinct states found, (\d+) states left on queue", out)
         if m:
             res["transitions"] = int(m.group(1))
